@@ -110,6 +110,22 @@ def compare_select(sv, case, ast, text=None, api=None, budget=20.0, match_law=Fa
     return 'agree', info
 
 
+def respelled(rng, ast, p=.2):
+    """Selector text for the AST: canonical, or (with probability p) a random CSS-insignificant respelling of it
+    (escapes in identifiers and values, quote style, letter case of keywords, whitespace/comments) - the reference
+    evaluates the AST either way."""
+    from . import respell
+    toks = respell.classify(sels.tok_list(ast))
+    if rng.random() >= p:
+        return respell.render(toks, rng, {})
+    active = {}
+    for i, t in enumerate(toks):
+        rs = {r for r in respell.applicable(t) if rng.random() < .4}
+        if rs:
+            active[i] = rs
+    return respell.render(toks, rng, active)
+
+
 def rebuild(w):
     tops = [trees.from_json(j) for j in w['tree']]
     return tops
